@@ -11,7 +11,12 @@ tie:     harness/density.py — real logpdf / pdf / jump / birth of all 24 propo
          obligation measured on live objects: the per-parameter CDF caches are distinct
          dict objects (hypothesis of C02_cache_coherent)
 search:  harness/quadrature.py — push-forward quadrature of the real jump()/birth against the
-         reported pdf, symmetric claim, history independence (real code only, no model)
+         reported pdf, symmetric claim, history independence (real code only, no model);
+         settings histories: the same comparison on real objects after every path that changes the
+         settings a jump uses (Chain.reset_proposals once / twice / after re-adaptation, set_state
+         from another instance, the public setters, set_jump_interval, deepcopy / pickle), and the
+         metamorphic form: same current settings reached by two histories => same logpdf / pdf,
+         same jump from the same scripted draws
 """
 import json
 import os
@@ -82,23 +87,43 @@ def run(chk, tier, proof_ok):
 
     # ---- coverage, measured
     fams = sorted(k[len('family:'):] for k in agg if k.startswith('family:'))
-    search = {k: v for k, v in agg.items() if not k.startswith('family:') and k not in ('notes', 'trouble')}
+    search = {k: v for k, v in agg.items() if not k.startswith('family:') and not k.startswith('hist:')
+              and k not in ('notes', 'trouble')}
     search['families'] = len(fams)
     search['units_per_family'] = {f: agg['family:' + f] for f in fams}
+    # settings histories, measured: history kind -> family -> number of real objects brought into that state
+    hist = {}
+    for k, v in agg.items():
+        if k.startswith('hist:'):
+            _, kind_, fam_ = k.split(':', 2)
+            hist.setdefault(kind_, {})[fam_] = v
+    search['settings_histories'] = {k: dict(sorted(v.items())) for k, v in sorted(hist.items())}
+    search['settings_histories_per_kind'] = {k: sum(v.values()) for k, v in sorted(hist.items())}
+    search['settings_histories_families'] = len({f for v in hist.values() for f in v})
     search['oracle'] = ('push-forward of the real jump()/birth under a deterministic quantile grid (Hammersley net '
                         'for the sphere) against sums / Simpson integrals of the real pdf with counting-error bounds '
                         '(see quadrature.py docstring); logpdf(x\'|x) = logpdf(x|x\') for families declaring '
                         'symmetric; bit-identical logpdf under every order of <= %d earlier queries; '
-                        'identically seeded adaptive chains with / without extra queries' % (3 if tier == 'quick' else 3))
+                        'identically seeded adaptive chains with / without extra queries; settings histories: the same '
+                        'push-forward comparison on real objects after reset_proposals (once, twice, after re-adaptation, '
+                        'plus one step), set_state from another instance (into a fresh and into an adapted one), '
+                        'assignment to std / cov / boundaries / kappa / successive / eigvals+eigvects, set_jump_interval '
+                        '(walk through the whole schedule: jump() draws <=> logpdf != 0), deepcopy and pickle; two '
+                        'objects with the same settings by construction but different histories report logpdf / pdf '
+                        'equal to 1e-12 and jump alike from the same scripted draws (every mismatch there is a failing '
+                        'input, also for families declaring symmetric)' % (3 if tier == 'quick' else 3))
     chk.coverage['correspondence'] = cov
     chk.coverage['search'] = search
     chk.coverage['evaluations'] = int(cov['queries'] + cov['jumps'] + agg.get('cells', 0)
                                       + agg.get('history_queries', 0) + agg.get('symmetric_pairs', 0)
-                                      + agg.get('reverse_checks', 0))
+                                      + agg.get('reverse_checks', 0) + agg.get('twin_queries', 0)
+                                      + agg.get('twin_jumps', 0) + agg.get('jump_interval_states', 0))
     chk.coverage['distinct_nontrivial'] = int(cov['instances'] + agg.get('units', 0))
     chk.coverage['rule'] = ('one per real proposal/birth instance with its own settings (family, 1-3 parameters, '
                             'unequal scales/bounds, adapted state) that was queried at >= 2 distinct point pairs '
-                            '(correspondence) or pushed a full quantile grid through jump() (search)')
+                            '(correspondence) or pushed a full quantile grid through jump() (search); a settings-history '
+                            'unit counts once: one real object taken through one history (family x history kind, settings '
+                            'and from-points from the seed) and then pushed through the same grid')
     chk.coverage['branches'] = cov['branches']
     chk.coverage['wall'] = {'correspondence_s': round(t1 - t0, 1), 'search_after_correspondence_s': round(t2 - t1, 1),
                             'note': 'the search runs in worker processes concurrently with the correspondence'}
